@@ -31,3 +31,10 @@ out += ev + "\n(* --------------------------------------------------------------
 out += module_wrap("Lex", lex_h, lex_b, lambda n: n.startswith("c17_"))
 open(os.path.join(P, "Properties_C17.v"), "w").write(out)
 print("C17:", len(re.findall(r"^\s*Theorem ", out, re.M)), "theorems")
+
+bf = open(os.path.join(P, "Properties_C19bfile.v")).read()
+out = "(* C19 - assembled by tools/assemble_props.py from Properties_C19bfile.v (build-description loader, dependency-file parsers) and the\n   c19_* theorems of Properties_c17lex.v (Ninja lexer: termination, bounds, tiling, EndOfFile).  Statements only. *)\n"
+out += bf + "\n(* ---------------------------------------------------------------- Ninja lexer part *)\n"
+out += module_wrap("Lex", lex_h, lex_b, lambda n: n.startswith("c19_"))
+open(os.path.join(P, "Properties_C19.v"), "w").write(out)
+print("C19:", len(re.findall(r"^\s*Theorem ", out, re.M)), "theorems")
